@@ -64,6 +64,37 @@ theorem compare_names_total_order (a b c : HNode) :
   exact (strcmpC_neg_iff _ _).mpr (nameLt_trans ((strcmpC_neg_iff _ _).mp h1) ((strcmpC_neg_iff _ _).mp h2))
 example := compare_names_total_order (nm [0x61]) (nm [0x61, 0x80]) (nm [0x62])
 
+/-- `strcmp` as modelled is the lexicographic order of the byte lists (core Lean's `<` on `List UInt8`, bytes compared
+unsigned) -/
+theorem strcmpC_neg_iff_lt (a b : Name) : strcmpC a b < 0 ↔ a < b := by
+  induction a generalizing b with
+  | nil => cases b <;> simp [strcmpC]
+  | cons x xs ih =>
+    cases b with
+    | nil => simp [strcmpC]
+    | cons y ys =>
+      rw [List.cons_lt_cons_iff]
+      by_cases hxy : x = y
+      · subst hxy; simp [strcmpC, ih]
+      · have hs : strcmpC (x :: xs) (y :: ys) = (x.toNat : Int) - (y.toNat : Int) := by simp [strcmpC, hxy]
+        rw [hs, UInt8.lt_iff_toNat_lt]
+        have hne : x.toNat ≠ y.toNat := fun h => hxy (UInt8.toNat_inj.mp h)
+        simp only [hxy, false_and, or_false]
+        omega
+
+/-- **`compare_names` is the lexicographic order on unsigned bytes**, stated with core Lean's order on `List UInt8`
+instead of the model's own `nameLt`: negative iff the first name is smaller, zero iff equal, positive iff larger.  This
+is the order every layer above relies on (and the one the check's third oracle, Python's `bytes` order, implements). -/
+theorem compare_names_is_lex (a b : HNode) :
+    (compareNames a b < 0 ↔ a.name < b.name) ∧ (compareNames a b = 0 ↔ a.name = b.name) ∧
+    (0 < compareNames a b ↔ b.name < a.name) := by
+  refine ⟨strcmpC_neg_iff_lt _ _, strcmpC_eq_zero_iff _ _, ?_⟩
+  unfold compareNames
+  rw [strcmpC_swap, strcmpC_neg_iff_lt]
+example := compare_names_is_lex (.mk [0x61, 0x80] default [] []) (.mk [0x61, 0x7f] default [] [])
+example : compareNames (.mk [0x61, 0x80] default [] []) (.mk [0x61, 0x7f] default [] []) > 0 ∧
+    ([0x61, 0x7f] : List UInt8) < [0x61, 0x80] := by decide
+
 /-- `read_names` leaves `it->names` a permutation of what `readdir` returned, strictly ascending under
 `compare_names` — for a stream of any length (no bound, no batches), names of any length. -/
 theorem read_names_sorted (stream : List HNode) (hnd : (stream.map HNode.name).Nodup) :
@@ -75,6 +106,12 @@ theorem read_names_sorted (stream : List HNode) (hnd : (stream.map HNode.name).N
   rw [List.pairwise_map] at h
   exact h.imp (fun hab => (strcmpC_neg_iff _ _).mpr hab)
 example := read_names_sorted [nm [0x63], nm [0x2e, 0x2e], nm [0x61, 0xff], nm [0x2e], nm [0x61]] (by decide)
+
+/-- `read_names` serves the entries in strictly ascending lexicographic order of their names (core `<` on `List UInt8`). -/
+theorem read_names_sorted_lex (stream : List HNode) (hnd : (stream.map HNode.name).Nodup) :
+    (readNames true stream).Pairwise (fun a b => a.name < b.name) :=
+  (read_names_sorted stream hnd).2.imp (fun h => (compare_names_is_lex _ _).1.mp h)
+example := read_names_sorted_lex [nm [0x63], nm [0x2e, 0x2e], nm [0x61, 0xff], nm [0x2e], nm [0x61]] (by decide)
 
 /-- The order `read_names` serves does not depend on the order in which `readdir` returned the entries. -/
 theorem read_names_perm {s₁ s₂ : List HNode} (hp : s₁.Perm s₂) (hnd : (s₁.map HNode.name).Nodup) :
